@@ -1582,6 +1582,19 @@ class Model(object):
         s = self.summaries()["may_raise"].get(fref, set())
         return bool(s & set(self.VALIDATION_EXC))
 
+    @staticmethod
+    def reachable_from_callees(fref, callees):
+        """functions reachable from ``fref`` through at least one call (so: contains fref iff it is on a call cycle)"""
+        seen = set()
+        todo = list(callees.get(fref, ()))
+        while todo:
+            f = todo.pop()
+            if f in seen:
+                continue
+            seen.add(f)
+            todo.extend(callees.get(f, ()))
+        return seen
+
     def reachable_from(self, fref, exact=False):
         s = self.summaries()["callees_exact" if exact else "callees"]
         seen = {fref}
